@@ -290,3 +290,169 @@ def run(ctx):
             k = next(i for i, (a, b) in enumerate(zip(impl, mres)) if a != b)
             ctx.report('correspondence', f'model Depth.ocean_floor_col and implementation differ at column {k}: '
                        f'impl {impl[k]} model {mres[k]}', case, found_input=False)
+    depth_coordinate_leg(ctx)
+
+
+# ---- which variables are the depth coordinates: model DepthCoord --------------------------------------------------------
+POSITIVE_POOL = [None, None, None, 'up', 'down', 'Up', 'DOWN', 'dOwN', 'upward', '', 'downwards']
+AXIS_POOL = [None, None, None, 'Z', 'z', 'X', 'T']
+CTYPE_POOL = [None, None, None, 'Z', 'z', 'time']
+SNAME_POOL = [None, None, None, 'depth', 'Depth', 'height', 'depth_below_geoid', 'sea_floor_depth']
+SHOC_FIXED = {'shoc_standard': ['z_centre', 'z_grid', 'z_centre_sed', 'z_grid_sed'], 'shoc_simple': ['zc', 'zcsed']}
+
+
+def _str_lit(s):
+    return 'None' if s is None else '(Some ' + to_coq([ord(ch) for ch in s]) + ')'
+
+
+def depth_coordinate_leg(ctx):
+    """Convention.depth_coordinates / depth_coordinate / get_depth_coordinate_for_data_array / get_grid_kind against
+    Model.DepthCoord on datasets carrying variables with every mixture of the five markers, on and off the grids."""
+    from emsarray.exceptions import NoSuchCoordinateError
+    rng = ctx.rng
+    n_ds = 40 if ctx.tier == 'quick' else 300
+    exprs, plans = [], []
+    for n in range(n_ds):
+        fam = ['cf1d', 'cf2d', 'shoc_simple', 'shoc_standard', 'ugrid', 'arakawa'][n % 6]
+        d = gen.arakawa(rng, shoc=False) if fam == 'arakawa' else gen.any_dataset(rng, fam)
+        ds = d.ds
+        ddims = {'k': rng.randint(2, 4), 'ksed': rng.randint(2, 4), 'kk': rng.randint(2, 4)}
+        if rng.random() < 0.4:
+            ddims['ksed'] = ddims['k']         # two axes of the same length: the default coordinate is the first of them
+        hdims = [str(x) for x in ds.dims]
+        names = ['botz', 'lev', 'lev_i', 'sed', 'aux1', 'aux2', 'aux3', 'aux4'] + rng.sample(
+            SHOC_FIXED.get(d.family, SHOC_FIXED['shoc_standard'] + SHOC_FIXED['shoc_simple']), 2)
+        rng.shuffle(names)
+        for nm in names[:rng.randint(3, len(names))]:
+            shape_kind = rng.choice(['depth', 'depth', 'depth', 'grid', 'grid+depth', 'depth2', 'other', 'scalar'])
+            gd = list(rng.choice(list(ds.ems.grid_dimensions.values())))
+            if shape_kind == 'depth':
+                dims = [rng.choice(list(ddims))]
+            elif shape_kind == 'grid':
+                dims = gd
+            elif shape_kind == 'grid+depth':
+                dims = gd + [rng.choice(list(ddims))]
+                rng.shuffle(dims)
+            elif shape_kind == 'depth2':
+                dims = rng.sample(list(ddims), 2)
+            elif shape_kind == 'other':
+                dims = [rng.choice(hdims)] + ([rng.choice(list(ddims))] if rng.random() < 0.5 else [])
+            else:
+                dims = []
+            shape = [ddims.get(x, ds.sizes.get(x)) for x in dims]
+            attrs = {}
+            for key, pool in (('positive', POSITIVE_POOL), ('axis', AXIS_POOL), ('cartesian_axis', AXIS_POOL),
+                              ('coordinate_type', CTYPE_POOL), ('standard_name', SNAME_POOL)):
+                val = rng.choice(pool)
+                if val is not None:
+                    attrs[key] = val
+            da = xarray.DataArray(numpy.arange(int(numpy.prod(shape)), dtype='f8').reshape(shape) + 1.0, dims=dims, attrs=attrs)
+            if dims and rng.random() < 0.4:
+                ds = ds.assign_coords({nm: da})
+            else:
+                ds[nm] = da
+        # some arrays to ask about that are not in the dataset
+        for k in range(2):
+            dims = rng.sample(list(ddims), rng.randint(1, 2)) + list(rng.choice(list(ds.ems.grid_dimensions.values())))
+            rng.shuffle(dims)
+            ds[f'q{k}'] = xarray.DataArray(numpy.zeros([ddims.get(x, ds.sizes.get(x)) for x in dims]), dims=dims)
+        ds = xarray.Dataset(ds.variables, attrs=ds.attrs).set_coords([c for c in ds.coords]) if n % 4 == 3 else ds
+        conv = ds.ems
+        dim_ids = {str(x): i for i, x in enumerate(ds.dims)}
+        vnames = [str(v) for v in ds.variables]
+        kinds = list(conv.grid_dimensions.items())
+        glit = to_coq([tup2(i, [dim_ids[str(x)] for x in dims]) for i, (_k, dims) in enumerate(kinds)])
+        vlits = []
+        for i, v in enumerate(vnames):
+            a = ds[v]
+            vlits.append('{| dv_name := %d; dv_dims := %s; dv_sizes := %s; a_positive := %s; a_axis := %s; a_cartesian_axis := %s; '
+                         'a_coordinate_type := %s; a_standard_name := %s |}' % (
+                             i, to_coq([dim_ids[str(x)] for x in a.dims]), to_coq([int(s) for s in a.shape]),
+                             _str_lit(a.attrs.get('positive')), _str_lit(a.attrs.get('axis')), _str_lit(a.attrs.get('cartesian_axis')),
+                             _str_lit(a.attrs.get('coordinate_type')), _str_lit(a.attrs.get('standard_name'))))
+        vlit = '[' + '; '.join(vlits) + ']'
+        arrays = [[dim_ids[str(x)] for x in ds[v].dims] for v in vnames]
+        fixed = SHOC_FIXED.get(d.family)
+        case = {'dataset': d.spec['label'], 'family': fam, 'variables': {
+            v: {'dims': list(map(str, ds[v].dims)), 'attrs': {k: ds[v].attrs[k] for k in (
+                'positive', 'axis', 'cartesian_axis', 'coordinate_type', 'standard_name') if k in ds[v].attrs}} for v in vnames}}
+        with warnings.catch_warnings():
+            warnings.simplefilter('ignore')
+            got_all = attempt(lambda: [vnames.index(str(c.name)) for c in conv.depth_coordinates])
+            try:
+                got_default = ('ok', vnames.index(str(conv.depth_coordinate.name)))
+            except NoSuchCoordinateError:
+                got_default = ('ok', None)
+            except Exception as e:      # noqa: BLE001
+                got_default = ('err', type(e).__name__)
+            got_for = []
+            for j, v in enumerate(vnames):
+                arg = v if j % 2 else ds[v]
+                try:
+                    got_for.append((0, vnames.index(str(conv.get_depth_coordinate_for_data_array(arg).name))))
+                except NoSuchCoordinateError:
+                    got_for.append((1, -1))
+                except ValueError:
+                    got_for.append((2, -1))
+                except Exception as e:      # noqa: BLE001
+                    got_for.append((9, type(e).__name__))
+            got_kinds = []
+            kind_keys = [k for k, _ in kinds]
+            for v in vnames:
+                try:
+                    got_kinds.append(Some(kind_keys.index(conv.get_grid_kind(ds[v]))))
+                except ValueError:
+                    got_kinds.append(None)
+        if fixed is None:
+            exprs.append(f'(observe {glit} {vlit} {to_coq(arrays)})')
+        else:
+            # SHOC looks its depth coordinates up by name; the per-array question and the grid kinds are the generic code
+            flit = to_coq([vnames.index(x) if x in vnames else 9000 + i for i, x in enumerate(fixed)])
+            exprs.append(f'(shoc_depth_coordinates {flit} {vlit}, shoc_depth_coordinate {flit} {vlit}, '
+                         f'map (fun v => grid_kind {glit} (dv_dims v)) {vlit})')
+        plans.append((case, fixed is not None, got_all, got_default, got_for, got_kinds))
+        found = got_all[1] if got_all[0] == 'ok' else []
+        ctx.count(f'depth_coordinate_leg:family={fam}')
+        ctx.count(f'depth_coordinate_leg:coordinates found={min(len(found), 4)}')
+        ctx.count(f'depth_coordinate_leg:answers per array={sorted({g[0] for g in got_for})}')
+        # direct statements of what the answers mean (no model needed): every detected coordinate lies on no grid; the default is
+        # one of them and none is smaller; the coordinate named for an array has only dimensions the array has
+        if fixed is not None:
+            # (SHOC files name their layer-centre coordinate: it is the default whenever present, whatever else is there)
+            if got_default != ('ok', vnames.index(fixed[0]) if fixed[0] in vnames else None):
+                ctx.report('property', f'SHOC default depth coordinate {got_default}, the file has {fixed[0]}: {fixed[0] in vnames}', case)
+        elif got_all[0] == 'ok' and got_default[0] == 'ok':
+            if fixed is None and any(got_kinds[i] is not None for i in found):
+                ctx.report('property', f'a variable on a grid is listed among the depth coordinates: {[vnames[i] for i in found]}', case)
+            if (got_default[1] is None) != (not found) or (found and got_default[1] not in found):
+                ctx.report('property', f'default depth coordinate {got_default[1]} with depth coordinates {found}', case)
+            elif found and any(ds[vnames[i]].size < ds[vnames[got_default[1]]].size for i in found):
+                ctx.report('property', f'default depth coordinate {vnames[got_default[1]]} is not the smallest of '
+                           f'{[vnames[i] for i in found]}', case)
+            for v, g in zip(vnames, got_for):
+                if g[0] == 0 and not set(ds[vnames[g[1]]].dims) <= set(ds[v].dims):
+                    ctx.report('property', f'{v} {ds[v].dims} is given the depth coordinate {vnames[g[1]]} {ds[vnames[g[1]]].dims}', case)
+    model = coq_eval_sharded(['Model.DepthCoord'], exprs, shard=10, workers=8)
+    ctx.leg('depth_coordinate_cases', len(exprs))
+    for (case, is_shoc, got_all, got_default, got_for, got_kinds), m in zip(plans, model):
+        if is_shoc:
+            (m_all, m_default), m_kinds = m
+            want = (('ok', [int(x) for x in m_all]), ('ok', None if m_default is None else int(m_default.v)))
+            got = (got_all, got_default)
+        else:
+            ((m_all, m_default), m_for), m_kinds = m
+            want = (('ok', [int(x) for x in m_all]), ('ok', None if m_default is None else int(m_default.v)),
+                    [(int(a), int(b)) for a, b in m_for])
+            got = (got_all, got_default, got_for)
+        m_kinds = [None if k is None else Some(int(k.v)) for k in m_kinds]
+        if want != got:
+            ctx.report('correspondence', f'model DepthCoord: depth coordinates / default / per array = {want}, implementation {got} '
+                       f'(variables numbered in dataset order)', case, found_input=False)
+        elif m_kinds != got_kinds:
+            ctx.report('correspondence', f'model DepthCoord.grid_kind = {m_kinds}, implementation get_grid_kind {got_kinds}', case,
+                       found_input=False)
+
+
+def tup2(a, b):
+    from coqio import tup
+    return tup(a, b)
